@@ -146,3 +146,24 @@ pub proof fn lemma_final_sub(px: FS, pz: FS, s: FS, c: FS, k: FS)
     assert(px == f_add(s, ck)); assert(pz == ck);
     ax_add_assoc(s, ck, f_neg(ck)); ax_add_neg(ck); ax_add_zero(s);
 }
+// the point as an assignment
+pub open spec fn zf(point: Seq<Fr>) -> Asg { |j: int| if 0 <= j < point.len() { point[j]@ } else { f_zero() } }
+// sum_{j<k} (x_j - z_j) * w_j(x)
+pub open spec fn qsum(qs: Seq<MvPoly>, x: Asg, z: Asg, k: nat) -> FS decreases k {
+    if k == 0 { f_zero() } else { f_add(qsum(qs, x, z, (k - 1) as nat), f_mul(f_sub(x(k - 1), z(k - 1)), mve(qs[k - 1].terms@, x))) }
+}
+pub proof fn lemma_qsum_prefix(q1: Seq<MvPoly>, q2: Seq<MvPoly>, x: Asg, z: Asg, k: nat)
+    requires k <= q1.len(), k <= q2.len(), forall|j: int| 0 <= j < k ==> q1[j] == q2[j]
+    ensures qsum(q1, x, z, k) == qsum(q2, x, z, k)
+    decreases k
+{ if k > 0 { lemma_qsum_prefix(q1, q2, x, z, (k - 1) as nat); } }
+pub proof fn lemma_qsum_zero_polys(qs: Seq<MvPoly>, x: Asg, z: Asg, k: nat)
+    requires k <= qs.len(), forall|j: int| 0 <= j < k ==> (#[trigger] qs[j]).terms@.len() == 0
+    ensures qsum(qs, x, z, k) == f_zero()
+    decreases k
+{ if k > 0 { lemma_qsum_zero_polys(qs, x, z, (k - 1) as nat); lemma_mul_zero(f_sub(x(k - 1), z(k - 1))); ax_add_zero(f_zero()); } }
+pub proof fn lemma_qsum_at_z(qs: Seq<MvPoly>, z: Asg, k: nat)
+    requires k <= qs.len()
+    ensures qsum(qs, z, z, k) == f_zero()
+    decreases k
+{ if k > 0 { lemma_qsum_at_z(qs, z, (k - 1) as nat); ax_add_neg(z(k - 1)); lemma_mul_zero(mve(qs[k - 1].terms@, z)); ax_add_zero(f_zero()); } }
